@@ -485,7 +485,7 @@ def hash_rule(ctx, res, rule):
                    "%s hashes a `%s`: the key index must hash the key itself (%s), or a lookup key that hashes like it" % (inst["name"][:90], t, key_ts),
                    site=P.loc(inst["id"], s["bb"]), sample={"hashes": t, "in": inst["path"]} if n <= 2 else None)
     res.count(rule + " sites", n)
-    res.floor(rule, rule + " sites", 4)
+    res.floor(rule, rule + " sites", 2)  # at least one hash on the lookup / insertion side and the re-hash callback
 
 
 def model_rule(ctx, res, only_index=False, rule="C06.model", ops=None):
